@@ -216,14 +216,15 @@ class ReedSolomonCodeEncoder(SystematicLinearBlockCodeEncoder):
         def syndrome_fn(reshaped_received):
             # Calculate syndrome using binary matrix multiplication
             # For a valid codeword, H·c^T = 0
+            check_matrix_t = self.check_matrix.t().to(reshaped_received.dtype)
             if reshaped_received.ndim == 1:
                 # Handle single vector case
                 reshaped_received = reshaped_received.unsqueeze(0)
-                syndrome = torch.matmul(reshaped_received, self.check_matrix.t()) % 2
+                syndrome = torch.matmul(reshaped_received, check_matrix_t) % 2
                 return syndrome.squeeze(0)
             else:
                 # Handle batch case
-                syndrome = torch.matmul(reshaped_received, self.check_matrix.t()) % 2
+                syndrome = torch.matmul(reshaped_received, check_matrix_t) % 2
                 return syndrome
 
         # Use apply_blockwise to handle tensors with arbitrary batch dimensions
